@@ -82,7 +82,15 @@ Inductive case :=
 (** benchstat's tables built from the results of ONE Reader (table by .config
     and unit): per table its unit, whether its assumption is AssumeExact, and
     the number of values in its cells *)
-| KTab (items : list titem) (tables : list (bytes * bool * Z)).
+| KTab (items : list titem) (tables : list (bytes * bool * Z))
+(** CONCURRENT callers (several goroutines, most calling Tidy, some scanning
+    their own Reader) meeting the same previously unseen units at overlapping
+    times, each batch in processes of its own (plain and under the race
+    detector): [calls] = every DISTINCT answer (tv, tu) any caller got for
+    Tidy(v, u), per unit; [norace] = the race detector reported nothing;
+    [alive] = no process died and no caller panicked or was left without a
+    result *)
+| KConc (calls : list (bytes * b64 * (b64 * bytes))) (norace alive : bool).
 
 (* not Sx.as_N: it uses Z.to_N, whose extracted name collides with the
    driver's use of Byte.to_N (reported) *)
@@ -149,6 +157,10 @@ Definition decode (s : sx) : option case :=
   | SL [SZ 4; calls] =>
       do calls <- as_list (as_triple as_b as_f64 as_fb) calls;
       Some (KTidySeq calls)
+  | SL [SZ 7; calls; norace; alive] =>
+      do calls <- as_list (as_triple as_b as_f64 as_fb) calls;
+      do norace <- as_bool norace; do alive <- as_bool alive;
+      Some (KConc calls norace alive)
   | SL [SZ 5; SB lit; items; items_late; full_late; gets] =>
       do items <- as_list as_sitem items;
       do items_late <- as_list as_sitem items_late;
@@ -308,6 +320,10 @@ Definition corr_ok (c : case) : bool :=
       && seq_ok tf (read_value isp) (beq lit) items_late gets
       && late_ok (read_value isp) items full_late
   | KTab items tables => tab_ok (fun u => snd (tidy isp b64_one u)) items tables
+  (* the model is a function of (v, u): whoever asks, and whoever else is
+     asking at the same time, gets [tidy v u]; and it cannot die *)
+  | KConc calls _ alive =>
+      alive && forallb (fun '(u, v, t) => fb_eqb (tidy isp v u) t) calls
   end.
 
 (** ** the specification on what the implementation was seen to do.
@@ -435,6 +451,15 @@ Definition prop_gen (relax : bool) (c : case) : bool :=
      unit with nothing to rewrite (a base form) comes back with the value untouched *)
   | KTidySeq calls =>
       forallb (fun '(u, v, t) =>
+        beq (snd t) (spec_unit isp u) && vj relax v u (fst t)
+        && (negb (beq (spec_unit isp u) u) || b64_same (fst t) v)) calls
+  (* concurrent callers: EVERY caller gets the normalised unit and the scaled
+     value (so all callers of one unit agree), nobody dies, and the race
+     detector has nothing to report *)
+  | KConc calls norace alive =>
+      norace && alive
+      && match calls with [] => false | _ => true end
+      && forallb (fun '(u, v, t) =>
         beq (snd t) (spec_unit isp u) && vj relax v u (fst t)
         && (negb (beq (spec_unit isp u) u) || b64_same (fst t) v)) calls
   (* every measurement of every line, however long the text: reported under
